@@ -153,6 +153,9 @@ async function run_query(req) {
     let producer = req.producer;
     let rows_before = producer.type != 'endless' ? plain(producer.rows) : null;
     let join_before = req.join_rows ? plain(req.join_rows) : null;
+    // own enumerable keys of every source row object (JSON snapshots do not see a property attached to an array)
+    let own_keys = (rows) => rows ? JSON.stringify(rows.map(r => (r && typeof r == 'object') ? Object.keys(r) : null)) : null;
+    let keys_before = [own_keys(producer.type != 'endless' ? producer.rows : null), own_keys(req.join_rows || null)];
     let headers_before = JSON.stringify([req.header || null, req.join_header || null]);
     let input_rows_ref = producer.type != 'endless' ? producer.rows.slice() : null;
     let join_rows_ref = req.join_rows ? req.join_rows.slice() : null;
@@ -207,6 +210,8 @@ async function run_query(req) {
         out.input_unchanged = JSON.stringify(rows_before) == JSON.stringify(producer.rows) && producer.rows.length == input_rows_ref.length && producer.rows.every((r, i) => r === input_rows_ref[i]);
         out.input_after = plain(producer.rows);
     }
+    let keys_after = [own_keys(producer.type != 'endless' ? producer.rows : null), own_keys(req.join_rows || null)];
+    out.row_keys_unchanged = keys_before[0] == keys_after[0] && keys_before[1] == keys_after[1];
     out.headers_unchanged = headers_before == JSON.stringify([req.header || null, req.join_header || null]);
     if (!out.headers_unchanged)
         out.headers_after = plain([req.header || null, req.join_header || null]);
